@@ -31,6 +31,21 @@ def _scalar_cases(Ls, qds, Ds, dts):
             for a, b in _pairs(palette.mps_structs(L, qd, Ds)):
                 for dt in dts:
                     yield ['scalars', qd, a, b, ops, dt]
+            # bra and ket in different sectors: matrix elements of charge-shifting operators (one layout per total)
+            st = palette.mps_structs(L, qd, [2] if L > 1 else [1])
+            first = {}
+            for t, q in st:
+                first.setdefault(t, q)
+            for (t1, a), (t2, b) in itertools.product(sorted(first.items()), repeat=2):
+                if t1 != t2:
+                    yield ['scalars', qd, a, b, _shift_ops(L, qd, t1 - t2), 'cc']
+
+
+def _shift_ops(L, qd, shift):
+    """Operator layouts whose total charge shift connects the two sectors (and one that does not)."""
+    out = [q for _, q in palette.mpo_structs(L, qd, [1, 2], totals=[shift])][:3]
+    out += [q for _, q in palette.mpo_structs(L, qd, [1], totals=[-shift])][:1]
+    return out
 
 
 def _density_cases(Ls, qds):
